@@ -234,6 +234,7 @@ type c11opts struct {
 	failAt     int    // vos fault plan (0 = none)
 	shortWrite bool
 	heal       bool // C12: after the event in which the fault hit let 31 s pass
+	image      map[string]string // start from this directory content (a restart) instead of an empty one
 }
 
 type c11res struct {
@@ -291,7 +292,7 @@ func c11event(sym byte) serf.Event {
 // c11exec runs one history against the real snapshotter on a fresh in-memory directory.
 func c11exec(o c11opts) *c11res {
 	r := &c11res{faultEv: -1}
-	fs := vos.NewFS(nil)
+	fs := vos.NewFS(o.image)
 	fs.FailAt = o.failAt
 	fs.ShortWrite = o.shortWrite
 	r.fs = fs
@@ -320,6 +321,9 @@ func c11exec(o c11opts) *c11res {
 		}
 		if snap == nil {
 			return
+		}
+		if o.image != nil {
+			clock.Witness(snap.LastClock()) // as serf.Create does after a restart
 		}
 		vsched.Quiesce() // both threads reach their select; the ticker starts at t=0
 		r.startOp = len(fs.Log)
@@ -584,6 +588,7 @@ func c11run(ctx *vc.Ctx) {
 			c11history(ctx, scn, cf.minCompact, h, false)
 		})
 	}
+	c11continueRun(ctx, &idx)
 }
 
 // c11history runs one history and checks every crash point.
